@@ -403,6 +403,21 @@ CHECKS = {
         design_ref="DESIGN.md 5 C39",
         note=NOTE_COMMON + " Tolerance 5e-5 (float32). The plane-wave modulus clause is weak in abTEM (a tilted PlaneWave has only the k = 0 component, which the ramp leaves unchanged).",
     ),
+    "C16": dict(
+        text=("Resample.tla: total intensity per interpolated diffraction pattern is preserved (zero stays zero, result finite); "
+              "Images.interpolate(fft): target grid for a requested sampling = ceil(n d / d') in exact rationals, when that is the "
+              "image's own grid the input is returned unchanged, the mean of every image is preserved; gaussian_source_size then "
+              "integrate_radial == integrate_radial then gaussian_filter. ResampleModel.tla transcribes which ensemble / base axis "
+              "gets which sigma in pixels on both routes (_gaussian_source_size walks the ensemble axes; integration moves the scan "
+              "axes behind the other ensemble axes; Images.gaussian_filter smooths the base axes) and TLC checks they agree for 6 "
+              "layouts x 3^2 samplings x 3^2 sigmas. Conformance: 320 scenarios enumerated by TLC (DP targets uniform / one / two "
+              "samplings / gpts smaller, larger, same x 4 grids x all-zero member x lazy; image targets same gpts / own sampling / "
+              "gpts smaller, larger, mixed / finer, coarser sampling x 4 grids x real, complex x lazy; source-size layouts ss / oss / "
+              "sos / sso x sigma small / anisotropic / wider than the scan x 3 integration ranges x lazy), quick: seeded 120."),
+        technique="TLA+ model of the sigma-to-axis bookkeeping checked by TLC; TLA+ scenario enumeration and acceptance predicate with exact rational target grids; TLC trace validation of runs on real measurement objects",
+        design_ref="DESIGN.md 5 C16",
+        note=NOTE_COMMON + " Tolerance 5e-5. The target-grid clause for a requested sampling is only applied where the statement needs it (same grid); spline interpolation is outside the statement.",
+    ),
 }
 
 NOT_APPLICABLE = {
